@@ -101,8 +101,16 @@ fn p_mac(s: &Sexp) -> Option<Mac> {
     let obs = l[4].list()?[1..].iter().map(p_lg).collect::<Option<Vec<_>>>()?;
     Some(Mac { name: p_name(&l[1])?, size, pins, obs })
 }
+thread_local! {
+    /// seed for the fields the importer does not read ("decor"), carried by the case line as `<ncs>/<seed>`
+    static DECOR: std::cell::Cell<u64> = std::cell::Cell::new(0);
+}
 pub fn parse_case(args: &[Sexp]) -> Option<(Option<bool>, Vec<Mac>)> {
-    let ncs = match args.get(0)?.atom()? {
+    let a0 = args.get(0)?.atom()?;
+    let mut it = a0.splitn(2, '/');
+    let a0 = it.next()?;
+    DECOR.with(|d| d.set(it.next().and_then(|s| s.parse().ok()).unwrap_or(0)));
+    let ncs = match a0 {
         "on" => Some(true),
         "off" => Some(false),
         _ => None,
@@ -152,6 +160,8 @@ pub fn to_leflib(ncs: Option<bool>, macs: &[Mac]) -> LefLibrary {
         lm.obs = m.obs.iter().map(to_lg).collect();
         lib.macros.push(lm);
     }
+    let decor = DECOR.with(|d| d.get());
+    if decor != 0 { crate::props::lef::decorate_for_import(&mut lib, decor); }
     lib
 }
 fn shape_s(s: &raw::Shape) -> String {
@@ -341,11 +351,18 @@ fn gen_dec(rng: &mut Rng, allow_bad: bool) -> D {
 fn fd(d: D) -> String {
     format!("(d {} {})", d.0, d.1)
 }
-fn gen_lg(rng: &mut Rng, layers: &[&str], bad: bool, nowidth: bool) -> String {
-    let layer = rng.pick(layers);
+/// `hist`: the (layer, figures) of the earlier LAYER blocks of the same pin / OBS. A third of the later
+/// blocks name a layer again and repeat some of its figures verbatim: each LEF figure is one shape.
+fn gen_lg(rng: &mut Rng, layers: &[&str], bad: bool, nowidth: bool, hist: &mut Vec<(String, Vec<String>)>) -> String {
+    let mut layer: String = rng.pick(layers).to_string();
     let n = 1 + rng.below(4);
     let mut geoms = vec![];
     let mut has_path = false;
+    if !hist.is_empty() && rng.chance(1, 3) {
+        let (l, gs) = hist[rng.below(hist.len() as u64) as usize].clone();
+        layer = l;
+        for g in gs.iter() { if g != "(iterate)" && rng.coin() { has_path |= g.starts_with("(path"); geoms.push(g.clone()); } }
+    }
     for _ in 0..n {
         geoms.push(match rng.below(if bad { 12 } else { 10 }) {
             0..=4 => format!("(rect {} {} {} {})", fd(gen_dec(rng, bad)), fd(gen_dec(rng, bad)), fd(gen_dec(rng, bad)), fd(gen_dec(rng, bad))),
@@ -370,6 +387,7 @@ fn gen_lg(rng: &mut Rng, layers: &[&str], bad: bool, nowidth: bool) -> String {
         6 => format!("(drw {})", fd((0, 0))),
         _ => "none".into(),
     };
+    hist.push((layer.clone(), geoms.clone()));
     format!("(lg {} {} {} {} ({}))", of_bytes(layer.as_bytes()), width, if bad && rng.chance(1, 10) { "#t" } else { "#f" }, spacing, geoms.join(" "))
 }
 pub fn gen(thorough: bool, rng: &mut Rng, out: &mut Vec<String>) {
@@ -385,11 +403,13 @@ pub fn gen(thorough: bool, rng: &mut Rng, out: &mut Vec<String>) {
             let pins: Vec<String> = (0..np)
                 .map(|j| {
                     let nports = 1 + rng.below(2);
-                    let ports: Vec<String> = (0..nports).map(|_| format!("(port {})", (0..1 + rng.below(2)).map(|_| gen_lg(rng, &layers, bad, nowidth)).collect::<Vec<_>>().join(" "))).collect();
+                    let mut hist = vec![]; // shared by the ports of one pin: the importer merges them
+                    let ports: Vec<String> = (0..nports).map(|_| format!("(port {})", (0..1 + rng.below(3)).map(|_| gen_lg(rng, &layers, bad, nowidth, &mut hist)).collect::<Vec<_>>().join(" "))).collect();
                     format!("(pin {} {})", of_bytes(format!("p{}", j).as_bytes()), ports.join(" "))
                 })
                 .collect();
-            let obs: Vec<String> = (0..rng.below(3)).map(|_| gen_lg(rng, &layers, bad, nowidth)).collect();
+            let mut hist = vec![];
+            let obs: Vec<String> = (0..rng.below(4)).map(|_| gen_lg(rng, &layers, bad, nowidth, &mut hist)).collect();
             macs.push(format!("(macro {} {} (pins {}) (obs {}))", of_bytes(format!("mac{}", k).as_bytes()), size, pins.join(" "), obs.join(" ")).replace(" )", ")"));
         }
         let ncs = match rng.below(12) {
@@ -397,6 +417,8 @@ pub fn gen(thorough: bool, rng: &mut Rng, out: &mut Vec<String>) {
             1 => "on",
             _ => "none",
         };
-        out.push(format!("lefraw.import {} {}", ncs, macs.join(" ")));
+        // two thirds of the cases also carry values in every field the importer does not read
+        if i % 3 == 0 { out.push(format!("lefraw.import {} {}", ncs, macs.join(" "))); }
+        else { out.push(format!("lefraw.import {}/{} {}", ncs, 1 + rng.below(1 << 40), macs.join(" "))); }
     }
 }
